@@ -1,1 +1,6 @@
-//! harness package hnet
+//! harness package hnet: shared pieces of the C14 socket recorder.
+//!
+//! * `Log`      - ndjson event log with a per-process sequence number (never wall-clock)
+//! * content    - distinguishable payload bytes and their decoder (stream offsets / datagram ids)
+pub mod content;
+pub mod log;
